@@ -28,6 +28,18 @@ type set struct {
 
 var _ Builder = (*set)(nil)
 
+// MarshalJSON gives the expression the form ParseJSON accepts, so that a
+// builder stored in a pagination cursor can be read back.
+func (set set) MarshalJSON() ([]byte, error) {
+	items := set.items
+	if items == nil {
+		items = []Builder{}
+	}
+	return json.Marshal(map[string]any{
+		"$" + set.operator: items,
+	})
+}
+
 func (set set) Build(ctx Context) (string, []any, error) {
 	if len(set.items) == 0 {
 		return "1 = 1", nil, nil
@@ -54,6 +66,14 @@ type keyValue struct {
 
 var _ Builder = (*keyValue)(nil)
 
+func (k keyValue) MarshalJSON() ([]byte, error) {
+	return json.Marshal(map[string]any{
+		k.operator: map[string]any{
+			k.key: k.value,
+		},
+	})
+}
+
 func (k keyValue) Build(ctx Context) (string, []any, error) {
 	return ctx.BuildMatcher(k.key, k.operator, k.value)
 }
@@ -63,6 +83,12 @@ type not struct {
 }
 
 var _ Builder = (*not)(nil)
+
+func (n not) MarshalJSON() ([]byte, error) {
+	return json.Marshal(map[string]any{
+		"$not": n.expression,
+	})
+}
 
 func (n not) Build(context Context) (string, []any, error) {
 	sub, args, err := n.expression.Build(context)
@@ -203,6 +229,16 @@ func mapMapToExpression(m map[string]any) (Builder, error) {
 			return nil, errors.Wrap(err, "parsing $and")
 		}
 		return and, nil
+	case "$not":
+		sub, ok := value.(map[string]any)
+		if !ok {
+			return nil, fmt.Errorf("unexpected type %T when decoding $not clause", value)
+		}
+		expression, err := mapMapToExpression(sub)
+		if err != nil {
+			return nil, errors.Wrap(err, "parsing $not")
+		}
+		return Not(expression), nil
 	case "$match", "$gte", "$lte", "$gt", "$lt":
 		match, err := parseKeyValue(operator, value)
 		if err != nil {
